@@ -25,7 +25,6 @@ from dromedary.local import LocalTransport
 
 from .. import revision as _mod_revision
 from .. import trace
-from ..lock import cant_unlock_not_held
 from ..lockdir import LockDir
 from ..mutabletree import MutableTree
 from . import bzrdir
@@ -140,10 +139,6 @@ class WorkingTree3(PreDirStateWorkingTree):
 
     def unlock(self):
         """Unlock the working tree and perform cleanup operations."""
-        if not self._control_files.is_locked():
-            # Do not release the branch lock (taken by somebody else) from the
-            # finally block below when this tree holds no lock.
-            return cant_unlock_not_held(self)
         if self._control_files._lock_count == 1:
             # do non-implementation specific cleanup
             self._cleanup()
